@@ -100,9 +100,9 @@ var props = map[string]propCfg{
 	},
 	"C12": {
 		level: "exploration",
-		rule:  "shared: one generated compiled spec, 2-6 walker tasks with their own states and 1-3 messages, results compared with the same walks done alone; swap: an UpdatableSpec holding version A or B (every action tags its emissions), 2-5 walkers x 1-4 calls and a swapper task issuing 1-6 swaps, each call must equal that call under A alone or under B alone; serial scheduler with yields at Step/Walk/consider/try/Exec entries, race monitor on; distinct = distinct schedule hashes; non-trivial = at least one scheduling choice",
+		rule:  "shared: one generated compiled spec, 2-6 walker tasks with their own states and 1-3 messages, results compared with the same walks done alone; in half of the runs one walker's context is cancelled (after a drawn number of scheduling points, or by the simulator exactly when that walker is about to run a script for the n-th time) and it goes on through a backlog of up to 9 more messages with its dead context - only its own results are excused; in half of the runs the scheduler weighs the tasks unequally (1, 4 or 16, redrawn now and then) instead of equally; swap: an UpdatableSpec holding version A or B (every action tags its emissions), 2-5 walkers x 1-4 calls and a swapper task issuing 1-6 swaps, each call must equal that call under A alone or under B alone; serial scheduler with yields at Step/Walk/consider/try/Exec entries, race monitor on; distinct = distinct schedule hashes; non-trivial = at least one scheduling choice",
 		parts: []part{
-			{name: "shared", engine: "core", race: true, quick: 2000, thorough: 40000},
+			{name: "shared", engine: "core", race: true, quick: 3000, thorough: 40000},
 			{name: "swap", engine: "core", race: true, quick: 2000, thorough: 40000},
 		},
 		comps: []string{"real: core.Spec.Walk/Step, core.UpdatableSpec, match, ecmascript interpreter - instrumented copies", "simulated: goroutine scheduling; race detector as happens-before monitor"},
